@@ -43,7 +43,7 @@ Section Eq.
     Definition trans_eqb (a b : trans) : bool :=
       match a, b with TId, TId | TSq, TSq => true | _, _ => false end.
     Definition range_eqb (a b : brange) : bool :=
-      match a, b with RS, RS | RN, RN => true | _, _ => false end.
+      match a, b with RS, RS | RN, RN => true | RV n, RV m => Nat.eqb n m | _, _ => false end.
 
     (* Deviate.variance (deviate.py:105-110) *)
     Definition variance (s : leafstate N) : T :=
@@ -55,6 +55,12 @@ Section Eq.
        | BNum x, BNum y => ne x y
        | BNan, BNan => true
        | BStr s, BStr t => String.eqb s t
+       | BVec x, BVec y =>
+           forall2b (fun c d => match c, d with
+                                | Some p, Some q => ne p q
+                                | None, None => true
+                                | _, _ => false
+                                end) x y
        | _, _ => false
        end) && ne (snd a) (snd b).
 
